@@ -79,4 +79,9 @@ TEXT = {
         "level": "Generated histories of locks, reward-receiver changes, gauges, top-ups and real epoch blocks; before every distribution epoch the expected floor pro-rata payment per receiver (minimum-value and no-route filters applied) is computed from the observed gauges and qualifying locks and compared with the balance deltas after the real block, together with gauge counters, finish schedule, deposited vs distributed and the module balance.",
         "note": "Trusted: the lockup and incentives queries for the pre-epoch snapshot (qualifying locks = locks longer than the gauge duration, unlocking ones included, as the lockup query reports). NoLock/group gauges are outside this check. Known finding: single-denom remainders <= 100 units are never paid.",
     },
+    "C18": {
+        "technique": "runtime monitor: offline checker over the bank-event ledger of every mint-epoch block (coinbase, burn, transfer events of the FinalizeBlock response) + minter and supply-with-offset queries against an exactly computed emission schedule",
+        "level": "Generated parameter sets run for 5..60 real consecutive mint epochs on a real app; every epoch block's bank events and the supply/minter queries are compared with the schedule (minted = floor(provision), per-destination floors, community pool remainder, empty mint account, reported supply + minted, reduction exactly at lastReduction + period, nothing before the start epoch).",
+        "note": "Trusted: the SDK's bank events as a faithful ledger (cross-checked by the mint-account balance and the supply queries). Parameters are set through the keeper's SetParams/SetMinter. Provisions above the developer vesting balance (hook failure) belong to C17's integrated part.",
+    },
 }
